@@ -40,6 +40,30 @@ LEVEL_NOTE = 'file system semantics as in the stated crash model; pickle trusted
 FILENAME = 'env.pickle'
 
 
+class Fragile:
+    """A picklable payload whose class refuses to be rebuilt once REFUSE is set (the file was written by an incompatible version of
+    the class): unpickling then fails inside __setstate__ with whatever exception the class raises - with or without arguments."""
+    REFUSE = None
+
+    def __init__(self):
+        self.numbers = [1, 2, 3]
+
+    def __eq__(self, other):
+        return isinstance(other, Fragile) and self.numbers == other.numbers
+
+    def __setstate__(self, state):
+        if Fragile.REFUSE is not None:
+            raise Fragile.REFUSE      # pylint: disable=raising-bad-type
+        self.__dict__.update(state)
+
+
+REFUSALS = [AssertionError(), KeyError(), MemoryError(), RuntimeError('incompatible version'), AttributeError('numbers'),
+            IndexError(), TypeError(), NotImplementedError, OSError(), OSError(5, 'Input/output error')]
+SUBST_QUICK = (0x00, 0x2e, 0x80, 0xff, 0x8e, 0x8d, 0x42)     # NUL, STOP, PROTO, 0xff, BINBYTES8, BINUNICODE8, BINBYTES
+# (BYTEARRAY8, 0x96, behaves like BINBYTES8 but makes CPython 3.12 print 'SystemError: deallocated bytearray object has exported
+# buffers' through the unraisable hook for every damaged file: left out to keep stderr readable)
+
+
 def payloads():
     from valjean.eponine.dataset import Dataset
     from valjean.gavroche.test import TestEqual
@@ -50,6 +74,8 @@ def payloads():
         'array': np.arange(6.0).reshape(2, 3),
         'dataset': dset,
         'testresult': TestEqual(dset, dset.copy(), name='eq', description='d').evaluate(),
+        'fragile': Fragile(),
+        'bytes': {'blob': bytes(range(256)) * 2, 'text': 'z' * 300},
     }
 
 
@@ -113,7 +139,7 @@ def judge_read(rep, root, names, ref, case, tag, size=0):
 def env_alphabet(tier):
     """Specs of 1-3 tasks."""
     statuses = ['DONE', 'FAILED', 'SKIPPED', 'WAITING', 'PENDING']
-    pkinds = ['int', 'nested', 'array', 'dataset', 'testresult']
+    pkinds = ['int', 'nested', 'array', 'dataset', 'testresult', 'fragile', 'bytes']
     out = []
     for status, outdir, pkind in itertools.product(statuses, (True, False), pkinds):
         out.append((('t0', status, outdir, pkind, 1),))
@@ -126,9 +152,23 @@ def env_alphabet(tier):
     return out
 
 
+def limit_memory(extra=2 << 30):
+    """A damaged pickle can ask the unpickler for a giant memo table or buffer that the kernel grants and that takes minutes to
+    clear (observed: 166 s for one substituted byte).  Cap the address space of this worker so such requests fail at once with
+    MemoryError - which the reader has to survive like any other unreadable file."""
+    import resource
+    with open('/proc/self/statm', encoding='ascii') as fil:
+        now = int(fil.read().split()[0]) * resource.getpagesize()
+    soft, hard = resource.getrlimit(resource.RLIMIT_AS)
+    want = now + extra
+    if soft == resource.RLIM_INFINITY or soft > want:
+        resource.setrlimit(resource.RLIMIT_AS, (want, hard))
+
+
 def job_crash(args):
     spec, tier = args
     rep = Report()
+    limit_memory()
     root = tempfile.mkdtemp(prefix='vf_c14_')
     try:
         do_write(root, spec)
@@ -151,8 +191,10 @@ def job_crash(args):
             faults = [('missing', None), ('directory', None)]
             faults += [('prefix', b) for b in range(len(good))]
             faults += [('zero-tail', b) for b in range(0, len(good), 1 if tier == 'thorough' or len(good) < 400 else 3)]
-            if tier == 'thorough':
-                faults += [('subst', (b, v)) for b in range(len(good)) for v in (0x00, 0x2e, 0x80, 0xff)]
+            if tier == 'thorough' or (len(spec) == 1 and status == 'DONE'):
+                faults += [('subst', (b, v)) for b in range(len(good)) for v in SUBST_QUICK]
+            if pkind == 'fragile':
+                faults += [('class-refuses', k) for k in range(len(REFUSALS))]
             for kind, arg in faults:
                 if os.path.isdir(path):
                     os.rmdir(path)
@@ -168,6 +210,13 @@ def job_crash(args):
                     if good[pos] == val:
                         continue
                     data = good[:pos] + bytes([val]) + good[pos + 1:]
+                    if val in (0x8e, 0x8d):
+                        # an 8-byte length between 16 MiB and 256 TiB makes the unpickler allocate and clear that much memory
+                        # before it notices the file is short (minutes per file): not explored, counted
+                        size = int.from_bytes(data[pos + 1:pos + 9].ljust(8, b'\0'), 'little')
+                        if 2 ** 24 <= size < 2 ** 48:
+                            rep.counters['substitutions_with_allocatable_giant_length_not_explored'] += 1
+                            continue
                     try:
                         pickle.loads(data)
                         rep.counters['substitutions_still_readable_not_judged'] += 1
@@ -176,11 +225,17 @@ def job_crash(args):
                         pass
                 elif kind == 'directory':
                     os.mkdir(path)
+                elif kind == 'class-refuses':
+                    data = good
+                    Fragile.REFUSE = REFUSALS[arg]
                 if data is not None:
                     with open(path, 'wb') as fil:
                         fil.write(data)
                 case = dict(case0, fault=kind, arg=arg, task=name)
-                out = judge_read(rep, root, names, refbad, case, f'{kind}', size=(arg if isinstance(arg, int) else 0))
+                try:
+                    out = judge_read(rep, root, names, refbad, case, f'{kind}', size=(arg if isinstance(arg, int) else 0))
+                finally:
+                    Fragile.REFUSE = None
                 nont = kind in ('prefix', 'zero-tail', 'subst') and arg not in (0,)
                 rep.case(nontrivial=(spec, name, kind, arg) if nont else None, outcome=(kind, out if isinstance(out, str) else len(out)))
             if os.path.isdir(path):
